@@ -76,6 +76,12 @@ class ExprMixin2:
                 raise Unsupported(f"{self.where(node)}: cannot resolve attribute .{name} on {v!r}")
             decl, ty = ft
             r = self.as_ref(v, st)
+            if decl.startswith("ast.") and cls and cls.startswith("ast."):
+                decl = "ast"            # typed view of an AST class: same component, value read at the declared type (wf-AST assumption)
+            if decl == "ast" and ty != "val":
+                t = st.read(f"ast.{name}", r, Val)
+                st.assume(z3.Implies(Val.is_R(t), z3.Select(st.comp("list.nodeowned"), Val.r(t))))
+                return [(st, self.unbox(t, ty, st))]
             if ty.startswith("tuple("):
                 parts = [p.strip() for p in ty[6:-1].split(",")]
                 xs = []
